@@ -10,6 +10,7 @@
  * Upper bound on queued waiters: H minus the wake-ups certainly issued but not yet returned.
  */
 #include "wl_common.h"
+#include "whitebox.h"
 
 #define MAXA 8
 enum { R_WAITER = 0, R_SIGNALLER };
@@ -20,6 +21,11 @@ enum { DL_NONE = 0, DL_PAST, DL_NEAR, DL_FAR };
 typedef struct wstate {
     int registered, returned, in_lo, timed;
     uint64_t deadline;
+    /* white-box layer (wait-list events of the condition variable) */
+    int simtid;
+    ABT_thread self;
+    const void *elem;
+    int enq, deq, unlinked;
 } wstate;
 
 static struct {
@@ -39,7 +45,86 @@ static struct {
     int nA;
     int signallers_done, nsignallers;
     long sig_with_waiter, bc_with_waiters, to_head, to_mid;
+    const void *cvwl; /* the condition variable's wait list */
+    int in_mutex_signal; /* the harness is inside ABT_cond_signal/broadcast while holding the mutex */
+    long wb_bound, wb_atomicity_checks, tasklet_refusals;
 } S;
+
+/* ---- white-box layer: the events of the condition variable's wait list make three clauses
+ * exact.  (1) release-and-wait is atomic: when a signal or broadcast issued by a caller that
+ * holds the mutex has gone through the wait list, every caller that entered a wait before
+ * (all of them registered under the mutex) must have been on the list.  (2) ABT_SUCCESS is
+ * returned exactly by the callers a signal or broadcast took off the list.  (3) TIMEDOUT is
+ * returned exactly by the callers that unlinked themselves, and only at or after the
+ * deadline (judged at the decision, not at the return). ---- */
+static void whoami(int *tid, ABT_thread *th)
+{
+    *th = ABT_THREAD_NULL;
+    if (ABT_self_get_thread(th) != ABT_SUCCESS)
+        *th = ABT_THREAD_NULL;
+    *tid = sim_self();
+}
+static wstate *w_by_elem(const void *who)
+{
+    for (int i = S.nw - 1; i >= 0; i--)
+        if (S.W[i].enq && S.W[i].elem == who && !S.W[i].returned)
+            return &S.W[i];
+    return NULL;
+}
+static void cond_event(int kind, const void *obj, const void *who)
+{
+    if (obj != S.cvwl)
+        return;
+    switch (kind) {
+        case 1:
+        case 8: {
+            int tid;
+            ABT_thread th;
+            whoami(&tid, &th);
+            for (int i = S.nw - 1; i >= 0; i--) {
+                wstate *w = &S.W[i];
+                if (w->registered && !w->returned && !w->enq && (th != ABT_THREAD_NULL ? w->self == th : (w->self == ABT_THREAD_NULL && w->simtid == tid))) {
+                    w->enq = 1;
+                    w->elem = who;
+                    S.wb_bound++;
+                    SIM_CHECK((kind == 8) == (w->timed != 0), "cond:waitlist", "wait #%d is %s but was enqueued as a %s waiter", i, w->timed ? "timed" : "untimed", kind == 8 ? "timed" : "untimed");
+                    break;
+                }
+            }
+            break;
+        }
+        case 2: {
+            wstate *w = w_by_elem(who);
+            if (w) {
+                SIM_CHECK(!w->deq && !w->unlinked, "cond:waitlist", "a waiter is taken off the wait list twice (dequeued=%d, unlinked=%d)", w->deq, w->unlinked);
+                w->deq = 1;
+            }
+            break;
+        }
+        case 4: {
+            wstate *w = w_by_elem(who);
+            if (w) {
+                SIM_CHECK(!w->deq, "cond:timedout-although-signalled", "a timed waiter unlinks itself as timed out after a signal had taken it off the list");
+                SIM_CHECK(w->timed && sim_now_ns() >= w->deadline, "cond:timedout-before-deadline", "a waiter decides that it timed out %lu ns before its deadline",
+                          (unsigned long)(w->deadline - sim_now_ns()));
+                w->unlinked = 1;
+            }
+            break;
+        }
+        case 3:
+        case 9:
+            if (S.in_mutex_signal) {
+                S.wb_atomicity_checks++;
+                for (int i = 0; i < S.nw; i++) {
+                    wstate *w = &S.W[i];
+                    SIM_CHECK(!(w->registered && !w->returned && !w->enq), "cond:release-and-wait-not-atomic",
+                              "a %s issued by a caller holding the mutex went through the wait list while wait #%d, which released the mutex before, was not on the list yet: it misses that wake-up",
+                              kind == 3 ? "signal" : "broadcast", i);
+                }
+            }
+            break;
+    }
+}
 
 static void lock(wl_actor *a)
 {
@@ -128,6 +213,7 @@ static void do_wait(wl_actor *a, int dl_kind, int arg)
         S.L++;
     S.H++;
     S.regs++;
+    whoami(&w->simtid, &w->self);
     int r;
     struct timespec ts;
     uint64_t now0 = sim_now_ns();
@@ -155,6 +241,14 @@ static void do_wait(wl_actor *a, int dl_kind, int arg)
         ABT_OK(ABT_mutex_unlock(S.m));
     }
     expire();
+    if (w->enq) {
+        if (r == ABT_SUCCESS)
+            SIM_CHECK(w->deq && !w->unlinked, "cond:spurious-or-duplicated-wakeup", "wait #%d of actor %d returned ABT_SUCCESS, but no signal or broadcast has taken it off the wait list (unlinked by time-out: %d)", wi,
+                      a->id, w->unlinked);
+        else
+            SIM_CHECK(w->unlinked && !w->deq, "cond:timedout-although-signalled", "wait #%d of actor %d returned %d although a signal or broadcast had taken it off the wait list: that wake-up is lost", wi,
+                      a->id, r);
+    }
     w->returned = 1;
     S.H--;
     if (r == ABT_SUCCESS) {
@@ -190,14 +284,18 @@ static void body(wl_actor *a)
                 case OP_SIGNAL_IN:
                     lock(a);
                     model_signal_pre();
+                    S.in_mutex_signal = 1;
                     ABT_OK(ABT_cond_signal(S.cv));
+                    S.in_mutex_signal = 0;
                     model_signal_post();
                     unlock(a);
                     break;
                 case OP_BCAST_IN:
                     lock(a);
                     model_bcast_pre();
+                    S.in_mutex_signal = 1;
                     ABT_OK(ABT_cond_broadcast(S.cv));
+                    S.in_mutex_signal = 0;
                     model_bcast_post();
                     unlock(a);
                     break;
@@ -237,6 +335,22 @@ static void body(wl_actor *a)
         S.signallers_done++;
 }
 
+/* under the 1.x API a tasklet cannot wait: ABT_cond_wait returns ABT_ERR_COND and must leave the
+ * mutex with the caller and the condition variable untouched */
+static void tasklet_body(wl_actor *a)
+{
+    if (ABT_mutex_trylock(S.m) != ABT_SUCCESS)
+        return;
+    SIM_CHECK(S.holder == -1, "cond:mutex-exclusion", "a tasklet's trylock succeeded while actor %d holds the mutex", S.holder);
+    S.holder = a->id;
+    int rc = ABT_cond_wait(S.cv, S.m);
+    SIM_CHECK(rc == ABT_ERR_COND, "cond:tasklet", "ABT_cond_wait called by a tasklet returned %d, documented: ABT_ERR_COND (%d)", rc, ABT_ERR_COND);
+    SIM_CHECK(S.holder == a->id, "cond:mutex-exclusion", "the refused ABT_cond_wait of a tasklet gave the mutex away (holder %d)", S.holder);
+    S.tasklet_refusals++;
+    unlock(a);
+    sim_progress();
+}
+
 static void diag(char *buf, int sz)
 {
     int k = snprintf(buf, (size_t)sz, "L=%d H=%d c=[%d,%d] returns=%d timeouts=%d waits=%d/%d holder=%d sigdone=%d/%d ", S.L, S.H, S.c_min, S.c_max, S.returns,
@@ -266,6 +380,8 @@ static void run_cond(int timed_mode)
     } else
         ABT_OK(ABT_mutex_create(&S.m));
     ABT_OK(ABT_cond_create(&S.cv));
+    S.cvwl = wb_cond_waitlist(S.cv);
+    sim_set_event_cb(cond_event);
     int n = plan_range(2, sim_limit("actors", 6));
     int maxops = sim_limit("ops", 4);
     S.nA = n;
@@ -306,6 +422,16 @@ static void run_cond(int timed_mode)
     }
     (void)have_waiter;
     wl_actors_spawn(rt, S.A, n);
+    wl_actor T;
+    memset(&T, 0, sizeof T);
+    int have_tasklet = !S.recursive && plan_n(5) == 0;
+    if (have_tasklet) {
+        T.id = 50;
+        T.kind = AK_TASKLET;
+        T.pool = (int)plan_n((uint32_t)rt->npools);
+        T.body = tasklet_body;
+        wl_actors_spawn(rt, &T, 1);
+    }
     /* quiescent point 1: every signaller has finished; every wake-up that was certainly owed
      * must arrive (a lost signal shows up here as a hang, before any flushing broadcast) */
     while (S.signallers_done < S.nsignallers)
@@ -333,17 +459,26 @@ static void run_cond(int timed_mode)
         /* (a waiter that registers between this look and its wait call is seen next time) */
         if (S.H > 0 && need > 0) {
             model_bcast_pre();
+            S.in_mutex_signal = 1;
             ABT_OK(ABT_cond_broadcast(S.cv));
+            S.in_mutex_signal = 0;
             model_bcast_post();
         }
         unlock(&me);
         ABT_OK(ABT_thread_yield());
     }
     wl_actors_join(rt, S.A, n);
+    if (have_tasklet)
+        wl_actors_join(rt, &T, 1);
     SIM_CHECK(S.returns >= S.c_min && S.returns <= S.c_max, "cond:wakeup-count", "returns=%d outside [%d,%d] at the end", S.returns, S.c_min, S.c_max);
     sim_count(timed_mode ? "c19.timeouts" : "c05.timeouts", (uint64_t)S.timeouts);
     sim_count(timed_mode ? "c19.signal_with_certain_waiter" : "c05.signal_with_certain_waiter", (uint64_t)S.sig_with_waiter);
     sim_count(timed_mode ? "c19.broadcast_with_certain_waiters" : "c05.broadcast_with_certain_waiters", (uint64_t)S.bc_with_waiters);
+    sim_count("cond.waits_bound_to_list_elements", (uint64_t)S.wb_bound);
+    sim_count("cond.in_mutex_signals_checked_for_atomicity", (uint64_t)S.wb_atomicity_checks);
+    if (S.tasklet_refusals)
+        sim_count("cond.tasklet_waits_refused", (uint64_t)S.tasklet_refusals);
+    sim_set_event_cb(NULL);
     ABT_OK(ABT_cond_free(&S.cv));
     ABT_OK(ABT_mutex_free(&S.m));
     wl_rt_stop(rt);
